@@ -4,7 +4,12 @@ use std::collections::HashMap;
 use std::fmt::{self, Display};
 use std::hash::DefaultHasher;
 use std::sync::atomic::{AtomicBool, AtomicUsize, Ordering};
+#[cfg(not(nundb_verif))]
 use std::sync::{Arc, Mutex, RwLock, RwLockReadGuard};
+#[cfg(nundb_verif)]
+use crate::verif_hooks::RwLock;
+#[cfg(nundb_verif)]
+use std::sync::{Arc, Mutex, RwLockReadGuard};
 use std::time::{Instant, SystemTime, UNIX_EPOCH};
 
 use crate::{db_ops::*, disk_ops::*, security::SECURY_KEYS_PREFIX};
@@ -461,7 +466,10 @@ pub struct ReplicationMessage {
 }
 
 pub struct Database {
+    #[cfg(not(nundb_verif))]
     pub map: std::sync::RwLock<HashMap<String, Value>>,
+    #[cfg(nundb_verif)]
+    pub map: RwLock<HashMap<String, Value>>,
     pub name: String,
     pub watchers: Watchers,
     pub connections: RwLock<AtomicUsize>,
@@ -608,7 +616,10 @@ impl Database {
     pub fn new(name: String, metadata: DatabaseMataData) -> Database {
         return Database {
             metadata,
+            #[cfg(not(nundb_verif))]
             map: std::sync::RwLock::new(HashMap::new()),
+            #[cfg(nundb_verif)]
+            map: RwLock::new(HashMap::new()),
             connections: RwLock::new(AtomicUsize::new(0)),
             name,
             watchers: Watchers {
@@ -989,6 +1000,10 @@ impl Databases {
     }
 
     pub fn next_op_log_id() -> u64 {
+        #[cfg(nundb_verif)]
+        if let Some(t) = crate::verif_hooks::now_nanos() {
+            return t;
+        }
         let start = SystemTime::now();
         let since_the_epoch = start
             .duration_since(UNIX_EPOCH)
